@@ -10,13 +10,24 @@ from auditok.util import DataSource, DataValidator
 class CountingSource(DataSource):
     """Hands out frames[i] one per read(), then None; logs every call."""
 
-    def __init__(self, frames):
+    def __init__(self, frames, fault_at=None, fault_exc=None):
         self.frames = frames
-        self.reads = 0  # read() calls made so far (incl. those that returned None)
+        self.reads = 0  # read() calls that returned (a frame or None); a call that raised is counted in `faults`
         self.eos_returns = 0  # how many times None was handed out
         self.reads_after_eos = 0
+        self.calls = 0  # every read() call, whatever its outcome
+        self.faults = 0
+        self.fault_at = fault_at  # the read() call (1-based) that raises once: a transient device / pipe error
+        self.fault_exc = fault_exc
+        self.fault_propagated = False
 
     def read(self):
+        self.calls += 1
+        if self.fault_at is not None and self.calls == self.fault_at:
+            self.faults += 1
+            exc = self.fault_exc("injected source fault")
+            exc.vf_injected = True
+            raise exc
         self.reads += 1
         i = self.reads - 1 - self.eos_returns
         if self.eos_returns:
@@ -132,10 +143,15 @@ def make_tokenizer(validator, params):
     return StreamTokenizer(validator, min_len, max_len, max_sil, init_min=init_min, init_max_silence=ims, mode=mode)
 
 
-def deliver(tokenizer, source, delivery, on_token=None):
+FAULTS = {"InterruptedError": InterruptedError, "BlockingIOError": BlockingIOError, "OSError": OSError, "TimeoutError": TimeoutError,
+          "KeyboardInterrupt": KeyboardInterrupt, "RuntimeError": RuntimeError, "EOFError": EOFError, "ValueError": ValueError,
+          "StopIteration": StopIteration, "MemoryError": MemoryError}
+
+
+def deliver(tokenizer, source, delivery, on_token=None, out=None):
     """Run one tokenization in the requested delivery mode.  on_token(token) is
     called at the instant each token reaches the consumer."""
-    out = []
+    out = [] if out is None else out
     if delivery == "list":
         res = tokenizer.tokenize(source)
         for t in res:
@@ -161,7 +177,7 @@ def deliver(tokenizer, source, delivery, on_token=None):
 
 
 PRIOR_USES = ("complete-list", "complete-generator", "partial-suspended", "partial-closed", "never-started", "closed-during-second-use",
-              "target-generator-created-first")
+              "target-generator-created-first", "source-raised")
 
 
 def parse_delivery(delivery):
@@ -170,6 +186,8 @@ def parse_delivery(delivery):
     mode, prior, use, j = parts[0], None, None, 0
     for p in parts[1:]:
         k, _, val = p.partition("=")
+        if k == "fault":
+            continue
         if k == "prior":
             prior = tuple(1 if c == "A" else 0 for c in val)
         elif k == "use":
@@ -187,6 +205,19 @@ def earlier_use(tk, v1, kind, use, j):
     """Use the tokenizer object on another stream first (C20: results must not depend on it)."""
     frames, _ = FRAME_KINDS[kind](v1)
     src = CountingSource(frames)
+    if use == "source-raised":
+        # the earlier use ended with an exception out of the source's read() (after j tokens' worth of stream, anywhere)
+        src = CountingSource(frames, fault_at=1 + (j * 5 + len(frames) // 2) % (len(frames) + 1), fault_exc=(OSError, KeyboardInterrupt, RuntimeError)[j % 3])
+        try:
+            if j % 2:
+                tk.tokenize(src)
+            else:
+                for _ in tk.tokenize(src, generator=True):
+                    pass
+        except BaseException as exc:
+            if not getattr(exc, "vf_injected", False):
+                raise
+        return None
     if use == "complete-list":
         res = tk.tokenize(src)
         # the caller keeps this result: it must still be the same after the tokenizer is used again
@@ -216,6 +247,23 @@ def run(v, params, kind="tuple", delivery="list", on_token=None):
     `delivery` may carry an earlier use of the same tokenizer object (see parse_delivery)."""
     mode, prior, use, j = parse_delivery(delivery)
     frames, validator = FRAME_KINDS[kind](v)
+    fault = [p.partition("=")[2] for p in delivery.split("|")[1:] if p.startswith("fault=")]
+    if fault:
+        # 'fault=K:Name': the K-th read() call raises Name once; the call after it succeeds (a transient error).
+        # Either the exception reaches the caller (then what was delivered before it is still bound by the properties)
+        # or the tokenizer carries on (then the whole result is).
+        k, _, name = fault[0].partition(":")
+        src = CountingSource(frames, fault_at=int(k), fault_exc=FAULTS[name])
+        tk = make_tokenizer(validator, params)
+        tokens = []
+        try:
+            deliver(tk, src, mode, on_token, out=tokens)
+        except BaseException as exc:
+            if not (getattr(exc, "vf_injected", False) or getattr(exc.__cause__ or exc.__context__, "vf_injected", False)):
+                raise
+            src.fault_propagated = True
+            src.fault_surfaced_as = type(exc).__name__
+        return frames, tokens, src
     src = CountingSource(frames)
     tk = make_tokenizer(validator, params)
     if use == "target-generator-created-first" and prior is not None:
